@@ -803,3 +803,458 @@ def gen_cst_type(rng, depth, simple=None):
     simple = (rng.random() < 0.5) if simple is None else simple
     ser, text, canon, _ = cst_type(rng, depth, simple)
     return ser, text, canon, simple
+
+
+# ---------------------------------------------------------------------- printer tie for whole files (C15)
+# Concrete syntax trees of whole documents in the shape of fam/idl/coq/Print.v (cfile ... cfield, cconst, cint, cdbl),
+# built in the normal form wf_file demands (a blank between two adjacent optional slots sits in the first one; a
+# declaration that ends with a word is set off from a following word), serialized for the runner entry `print-file`,
+# printed HERE by plain concatenation, with the canonical tree of the erased document.
+
+TYPE_WORDS = BASE_TYPES + ["list", "set", "map"]
+
+
+class CstGen:
+    def __init__(self, rng, depth=2):
+        self.r = rng
+        self.depth = depth
+
+    # ---- lexical
+    def blank(self, mandatory=False, p_empty=0.45, eof=False):
+        """(ser, text); eof: the blank may end with a line comment that runs to the end of input"""
+        s, t = cst_blank(self.r, mandatory=mandatory, p_empty=p_empty)
+        if eof and self.r.random() < 0.35:
+            body = "".join(self.r.choice(["a", " ", "*", "/", "#", "é", "end", "//"]) for _ in range(self.r.choice([0, 1, 4])))
+            kind = self.r.choice("lh")
+            n = int(s.split(" ")[0][1:])
+            atoms = s.split(" ")[1:]
+            # a line comment must follow a white-space run or a block comment or nothing; after a line comment the
+            # normal form has a white-space run beginning with the newline, after which another comment is fine
+            s = "b%d" % (n + 1) + "".join(" " + a for a in atoms) + " %s%s" % (kind, _hx(body.encode("utf-8")))
+            t = t + ("//" if kind == "l" else "#") + body
+        return s, t
+
+    def ident(self, forbid=()):
+        return cst_ident(self.r, forbid)
+
+    def path(self, forbid_first=()):
+        return cst_path(self.r, forbid_first)
+
+    def oanns(self, p=0.25):
+        if self.r.random() >= p:
+            return "N", "", "[]", False
+        s, t, c = cst_anns(self.r)
+        return "A " + s, t, c, True
+
+    def sep(self, eof=False, p_none=0.5):
+        """(ser, text, present)"""
+        if self.r.random() < p_none:
+            return "s0", "", False
+        k = self.r.choice(",;")
+        bs, bt = self.blank(eof=eof)
+        return "s%s %s" % (k, bs), k + bt, True
+
+    def tail(self, eof, ends_word, last):
+        """[blank] [annotations] [separator]; returns (ser, text, canon_anns, open, bare)"""
+        as_, at, ac, has = self.oanns()
+        ss, st, sp = self.sep(eof=eof)
+        bare_rest = not has and not sp
+        # a bare tail after a word, with something following, needs a blank
+        need = bare_rest and ends_word and not last
+        bs, bt = self.blank(mandatory=need, eof=eof and bare_rest)
+        is_open = sp or not has
+        return "%s %s %s" % (bs, as_, ss), bt + at + st, ac, is_open, (bare_rest and bt == "")
+
+    # ---- numbers
+    def cint(self):
+        r = self.r
+        minus = r.choice([0, 0, 0, 1, 1, 2, 3])
+        hexa = r.random() < 0.3
+        k = r.random()
+        if k < 0.6:
+            v = r.randrange(0, 300)
+        elif k < 0.8:
+            v = r.choice([0, 1, 127, 255, 65535, I32_MAX, I32_MAX + 1, I64_MAX, I64_MAX - 1, 10 ** 18])
+        else:
+            v = r.randrange(0, I64_MAX + 1)
+        if hexa:
+            d = ("%x" % v) if r.random() < 0.5 else ("%X" % v)
+        else:
+            d = str(v)
+        if r.random() < 0.2:
+            d = "0" * r.choice([1, 2, 5]) + d
+        val = -v if minus % 2 else v
+        return "I %d %s i%s" % (minus, "h" if hexa else "d", _hx(d.encode())), "-" * minus + ("0x" if hexa else "") + d, val
+
+    def digits(self, lo=1):
+        r = self.r
+        return "".join(r.choice("0123456789") for _ in range(r.choice([lo, lo, 1, 2, 3, 7])))
+
+    def cexp(self):
+        s, t, _ = self.cint()
+        u = self.r.random() < 0.5
+        return "%s %s" % ("E" if u else "e", s), ("E" if u else "e") + t
+
+    def oexp(self):
+        if self.r.random() < 0.5:
+            return "x0", ""
+        s, t = self.cexp()
+        return "x1 " + s, t
+
+    def cdbl(self):
+        """(ser, text, signed, form)"""
+        r = self.r
+        m, p = r.random() < 0.3, r.random() < 0.2
+        form = r.choice("ABC")
+        if form == "A":
+            ip, fp = self.digits(1), (self.digits(1) if r.random() < 0.7 else "")
+            es, et = self.oexp()
+            body_s, body_t = "A i%s i%s %s" % (_hx(ip.encode()), _hx(fp.encode()), es), ip + "." + fp + et
+        elif form == "B":
+            fp = self.digits(1)
+            es, et = self.oexp()
+            body_s, body_t = "B i%s %s" % (_hx(fp.encode()), es), "." + fp + et
+        else:
+            ip = self.digits(1)
+            es, et = self.cexp()
+            body_s, body_t = "C i%s %s" % (_hx(ip.encode()), es), ip + et
+        return "D %d %d %s" % (m, p, body_s), ("-" if m else "") + ("+" if p else "") + body_t, (m or p), form
+
+    # ---- constant values: (ser, text, canon, ends_word, starts_word, starts_dot, is_path)
+    def const(self, depth):
+        r = self.r
+        k = r.random()
+        if depth <= 0 or k < 0.65:
+            j = r.randrange(5)
+            if j == 0:
+                ls, lt, lc = cst_lit(r)
+                return "CL " + ls, lt, "(str %s)" % lc, False, False, False, False
+            if j == 1:
+                b = r.random() < 0.5
+                return ("CB1" if b else "CB0"), ("true" if b else "false"), "(bool %s)" % ("true" if b else "false"), True, True, False, False
+            if j == 2:
+                ps, pt, pc = self.path(forbid_first=["true", "false"])
+                return "CP " + ps, pt, "(path %s)" % pc, True, True, False, True
+            if j == 3:
+                ds, dt, signed, form = self.cdbl()
+                return "C" + ds, dt, "(double %s)" % lit_canon(dt), True, not signed, (not signed and form == "B"), False
+            is_, it, iv = self.cint()
+            return "C" + is_, it, "(int %d)" % iv, True, not it.startswith("-"), False, False
+        n = r.choice([0, 1, 2, 3, 5])
+        is_map = r.random() < 0.5
+        b0s, b0t = self.blank()
+        els = []
+        for _ in range(n):
+            if is_map:
+                key = self.const(depth - 1)
+                b1s, b1t = self.blank()
+                b2s, b2t = self.blank()
+                v = self.const(depth - 1)
+                els.append((key, b1s, b1t, b2s, b2t, v))
+            else:
+                els.append((None, None, None, None, None, self.const(depth - 1)))
+        ser, text, cs = [], "", []
+        for idx, (key, b1s, b1t, b2s, b2t, v) in enumerate(els):
+            nxt = els[idx + 1] if idx + 1 < len(els) else None
+            first_of_next = (nxt[0] if is_map else nxt[5]) if nxt else None
+            next_word = first_of_next[4] if first_of_next else False
+            next_dot = first_of_next[5] if first_of_next else False
+            # glue: choose the separator / blank so that the value does not fuse with the next one
+            must_sep = v[6] and next_dot
+            if must_sep or r.random() < 0.5:
+                kch = r.choice(",;")
+                sbs, sbt = self.blank()
+                ss, st = "s%s %s" % (kch, sbs), kch + sbt
+                bs, bt = self.blank()
+            else:
+                ss, st = "s0", ""
+                bs, bt = self.blank(mandatory=(v[3] and (next_word or next_dot)))
+            if is_map:
+                ser.append("%s %s %s %s %s %s" % (key[0], b1s, b2s, v[0], bs, ss))
+                text += key[1] + b1t + ":" + b2t + v[1] + bt + st
+                cs.append("(%s %s)" % (key[2], v[2]))
+            else:
+                ser.append("%s %s %s" % (v[0], bs, ss))
+                text += v[1] + bt + st
+                cs.append(v[2])
+        if is_map:
+            return ("CMAP %s m%d%s" % (b0s, n, "".join(" " + x for x in ser)), "{" + b0t + text + "}",
+                    "(map" + "".join(" " + c for c in cs) + ")", False, False, False, False)
+        return ("CLIST %s m%d%s" % (b0s, n, "".join(" " + x for x in ser)), "[" + b0t + text + "]",
+                "(list" + "".join(" " + c for c in cs) + ")", False, False, False, False)
+
+    # ---- types
+    def type_(self, forbid_head=()):
+        """(ser, text, canon, ends_word)"""
+        r = self.r
+        for _ in range(50):
+            ser, text, canon, ew = cst_type(r, r.choice([0, 0, 1, 2]), False)
+            toks = ser.split(" ")
+            if toks[1] == "path":
+                head = bytes.fromhex(toks[2][1:]).decode()
+                if head in forbid_head:
+                    continue
+            return ser, text, canon, ew
+        return "T base i32 N", "i32", "(type i32 [])", True
+
+    # ---- fields
+    def field(self, fid, last, in_args=False):
+        r = self.r
+        idtxt = ("0" * r.choice([0, 0, 0, 1, 3])) + str(fid)
+        b1s, b1t = self.blank(p_empty=0.7)
+        b2s, b2t = self.blank()
+        attr = r.choice(["required", "optional", None])
+        if attr:
+            abs_, abt = self.blank(mandatory=True)
+            attr_s, attr_t = "a%s %s" % (attr[0], abs_), attr + abt
+            ts, tt, tc, tew = self.type_()
+        else:
+            attr_s, attr_t = "a0", ""
+            ts, tt, tc, tew = self.type_(forbid_head=["required", "optional"])
+        b3s, b3t = self.blank(mandatory=tew)
+        name = self.ident()
+        has_def = r.random() < 0.3
+        as_, at, ac, has_anns = self.oanns(0.2)
+        ss, st, has_sep = self.sep()
+        dc = "-"
+        if has_def:
+            b5s, b5t = self.blank()
+            v = self.const(2)
+            need = v[3] and not has_anns and not has_sep and not last
+            b6s, b6t = self.blank(mandatory=need)
+            b4s, b4t = self.blank()
+            def_s, def_t = "d1 %s %s %s" % (b5s, v[0], b6s), "=" + b5t + v[1] + b6t
+            dc = v[2]
+        else:
+            need = not has_anns and not has_sep and not last
+            b4s, b4t = self.blank(mandatory=need)
+            def_s, def_t = "d0", ""
+        if has_anns:
+            b7s, b7t = self.blank()
+            an_s, an_t = "%s %s" % (as_, b7s), at + b7t
+        else:
+            an_s, an_t = "N", ""
+        ser = "F i%s %s %s %s %s %s i%s %s %s %s %s" % (_hx(idtxt.encode()), b1s, b2s, attr_s, ts, b3s, _hx(name.encode()), b4s,
+                                                          def_s, an_s, ss)
+        text = idtxt + b1t + ":" + b2t + attr_t + tt + b3t + name + b4t + def_t + an_t + st
+        cattr = attr or "default"
+        if in_args and cattr == "default":
+            cattr = "required"
+        return ser, text, "(field %d %s %s %s %s %s)" % (fid, cattr, tc, name, dc, ac)
+
+    def fields(self, n, in_args=False):
+        g = Gen(self.r)
+        ids = g.field_ids(n)
+        sers, text, cs = [], "", []
+        for i, fid in enumerate(ids):
+            s, t, c = self.field(fid, i == n - 1, in_args)
+            sers.append(s)
+            text += t
+            cs.append(c)
+        return "f%d%s" % (n, "".join(" " + s for s in sers)), text, "(" + " ".join(cs) + ")"
+
+    # ---- declarations: each returns (ser, text, canon, open, ends_word)
+    def struct_like(self, eof, last):
+        r = self.r
+        name = self.ident()
+        b1s, b1t = self.blank()
+        b0s, b0t = self.blank()
+        fs, ft, fc = self.fields(r.choice([0, 1, 2, 3, 5]))
+        ts, tt, tac, is_open, bare = self.tail(eof, False, last)
+        return ("i%s %s %s %s %s" % (_hx(name.encode()), b1s, b0s, fs, ts), name + b1t + "{" + b0t + ft + "}" + tt,
+                "%s %s %s" % (name, fc, tac), is_open, False)
+
+    def enum(self, eof, last):
+        r = self.r
+        b1s, b1t = self.blank(mandatory=True)
+        name = self.ident()
+        b2s, b2t = self.blank()
+        b0s, b0t = self.blank()
+        n = r.choice([0, 1, 2, 3, 5])
+        sers, text, cs = [], "", []
+        for i in range(n):
+            vn = self.ident()
+            has_val = r.random() < 0.6
+            as_, at, ac, has_anns = self.oanns(0.2)
+            ss, st, has_sep = self.sep()
+            lastv = i == n - 1
+            if has_val:
+                vb1s, vb1t = self.blank()
+                is_, it, iv = self.cint()
+                need = not has_anns and not has_sep and not lastv
+                vb2s, vb2t = self.blank(mandatory=need)
+                e1s, e1t = self.blank()
+                val_s, val_t, vc = "v1 %s %s %s" % (vb1s, is_, vb2s), "=" + vb1t + it + vb2t, str(iv)
+            else:
+                need = not has_anns and not has_sep and not lastv
+                e1s, e1t = self.blank(mandatory=need)
+                val_s, val_t, vc = "v0", "", "-"
+            if has_anns and not has_sep:
+                b4s, b4t = self.blank()
+            else:
+                b4s, b4t = "b0", ""
+            sers.append("i%s %s %s %s %s %s" % (_hx(vn.encode()), e1s, val_s, as_, ss, b4s))
+            text += vn + e1t + val_t + at + st + b4t
+            cs.append("(ev %s %s %s)" % (vn, vc, ac))
+        as_, at, ac, has_anns = self.oanns(0.2)
+        b3s, b3t = self.blank(eof=eof and not has_anns)
+        ser = "%s i%s %s %s e%d%s %s %s" % (b1s, _hx(name.encode()), b2s, b0s, n, "".join(" " + s for s in sers), b3s, as_)
+        text = "enum" + b1t + name + b2t + "{" + b0t + text + "}" + b3t + at
+        return ser, text, "(enum %s (%s) %s)" % (name, " ".join(cs), ac), not has_anns, False
+
+    def function(self):
+        """(ser, text, canon, closed)"""
+        r = self.r
+        oneway = r.random() < 0.2
+        if oneway:
+            obs, obt = self.blank(mandatory=True)
+            ow_s, ow_t = "o1 " + obs, "oneway" + obt
+            ts, tt, tc, tew = self.type_()
+        else:
+            ow_s, ow_t = "o0", ""
+            ts, tt, tc, tew = self.type_(forbid_head=["oneway", "throws"])
+        b1s, b1t = self.blank(mandatory=True)
+        name = self.ident()
+        b2s, b2t = self.blank()
+        b0s, b0t = self.blank()
+        as_, at, ac_ = self.fields(r.choice([0, 0, 1, 2, 4]), in_args=True)
+        b3s, b3t = self.blank()
+        thc = "()"
+        if r.random() < 0.3:
+            t1s, t1t = self.blank()
+            t0s, t0t = self.blank()
+            fs, ft, thc = self.fields(r.choice([1, 1, 2]))
+            t2s, t2t = self.blank()
+            th_s, th_t = "t1 %s %s %s %s" % (t1s, t0s, fs, t2s), "throws" + t1t + "(" + t0t + ft + ")" + t2t
+        else:
+            th_s, th_t = "t0", ""
+        ans, ant, anc, has_anns = self.oanns(0.2)
+        ss, st, has_sep = self.sep()
+        ser = "%s %s %s i%s %s %s %s %s %s %s %s" % (ow_s, ts, b1s, _hx(name.encode()), b2s, b0s, as_, b3s, th_s, ans, ss)
+        text = ow_t + tt + b1t + name + b2t + "(" + b0t + at + ")" + b3t + th_t + ant + st
+        canon = "(fn %s %s %s %s %s %s)" % (name, "oneway" if oneway else "twoway", tc, ac_, thc, anc)
+        return ser, text, canon, (has_anns and not has_sep)
+
+    def service(self, eof, last):
+        r = self.r
+        b1s, b1t = self.blank(mandatory=True)
+        name = self.ident()
+        ec = "-"
+        if r.random() < 0.3:
+            e1s, e1t = self.blank(mandatory=True)
+            e2s, e2t = self.blank(mandatory=True)
+            ps, pt, ec = self.path()
+            ex_s, ex_t = "x1 %s %s %s" % (e1s, e2s, ps), e1t + "extends" + e2t + pt
+        else:
+            ex_s, ex_t = "x0", ""
+        b2s, b2t = self.blank()
+        n = r.choice([0, 1, 2, 3, 5])
+        prev_closed = True
+        sers, text, cs = [], "", []
+        for _ in range(n):
+            bs, bt = self.blank() if prev_closed else ("b0", "")
+            fs, ft, fc, closed = self.function()
+            sers.append("%s %s" % (bs, fs))
+            text += bt + ft
+            cs.append(fc)
+            prev_closed = closed
+        b3s, b3t = self.blank() if prev_closed else ("b0", "")
+        ts, tt, tac, is_open, bare = self.tail(eof, False, last)
+        ser = "%s i%s %s %s g%d%s %s %s" % (b1s, _hx(name.encode()), ex_s, b2s, n, "".join(" " + s for s in sers), b3s, ts)
+        text = "service" + b1t + name + ex_t + b2t + "{" + text + b3t + "}" + tt
+        return ser, text, "(service %s %s (%s) %s)" % (name, ec, " ".join(cs), tac), is_open, False
+
+    def item(self, last):
+        """(ser, text, canon, open, ends_word, rs_package or None); eof is decided by the caller through `last`:
+        an item is at the end of input when it is the last one and ends in a blank slot (its trailing file-level blank
+        is then empty) -- the generator passes eof=last to the slots and fixes the file-level blank afterwards"""
+        r = self.r
+        kind = r.choice(["include", "cpp_include", "namespace", "typedef", "typedef", "const", "const", "enum", "struct", "struct",
+                         "union", "exception", "service"])
+        eof = last
+        pkg = None
+        if kind in ("include", "cpp_include"):
+            bs, bt = self.blank(mandatory=True)
+            ls, lt, lc = cst_lit(r)
+            ss, st, has_sep = self.sep(eof=eof)
+            return "%s %s %s %s" % (kind, bs, ls, ss), kind + bt + lt + st, "(%s %s)" % (kind, lc), has_sep, False, None
+        if kind == "namespace":
+            b1s, b1t = self.blank(mandatory=True)
+            sc = r.choice(SCOPES) if r.random() < 0.6 else "rs"
+            b2s, b2t = self.blank(mandatory=True)
+            ps, pt, pc = self.path()
+            as_, at, ac, has_anns = self.oanns(0.2)
+            ss, st, has_sep = self.sep(eof=eof)
+            if has_anns:
+                b3s, b3t = self.blank()
+                b4s, b4t = self.blank(eof=eof and not has_sep)
+                an_s, an_t, anc = "%s %s" % (as_, b4s), at + b4t, ac
+                ew = False
+            else:
+                need = not has_sep and not last
+                b3s, b3t = self.blank(mandatory=need, eof=eof and not has_sep)
+                an_s, an_t, anc = "N", "", "-"
+                ew = (not has_sep) and b3t == ""
+            ser = "namespace %s i%s %s %s %s %s %s" % (b1s, _hx(sc.encode()), b2s, ps, b3s, an_s, ss)
+            text = "namespace" + b1t + sc + b2t + pt + b3t + an_t + st
+            return ser, text, "(namespace %s %s %s)" % (sc, pc, anc), True, ew, ((sc, pc) if sc == "rs" else None)
+        if kind == "typedef":
+            b1s, b1t = self.blank(mandatory=True)
+            ts, tt, tc, tew = self.type_()
+            b2s, b2t = self.blank(mandatory=True)
+            name = self.ident()
+            tls, tlt, tac, is_open, bare = self.tail(eof, True, last)
+            return ("typedef %s %s %s i%s %s" % (b1s, ts, b2s, _hx(name.encode()), tls), "typedef" + b1t + tt + b2t + name + tlt,
+                    "(typedef %s %s %s)" % (tc, name, tac), is_open, bare, None)
+        if kind == "const":
+            b1s, b1t = self.blank(mandatory=True)
+            ts, tt, tc, tew = self.type_()
+            b2s, b2t = self.blank(mandatory=True)
+            name = self.ident()
+            b3s, b3t = self.blank()
+            b4s, b4t = self.blank()
+            v = self.const(self.depth)
+            tls, tlt, tac, is_open, bare = self.tail(eof, v[3], last)
+            ser = "const %s %s %s i%s %s %s %s %s" % (b1s, ts, b2s, _hx(name.encode()), b3s, b4s, v[0], tls)
+            text = "const" + b1t + tt + b2t + name + b3t + "=" + b4t + v[1] + tlt
+            return ser, text, "(const %s %s %s %s)" % (name, tc, v[2], tac), is_open, (v[3] and bare), None
+        if kind == "enum":
+            s, t, c, is_open, ew = self.enum(eof, last)
+            return "enum " + s, t, c, is_open, ew, None
+        if kind in ("struct", "union", "exception"):
+            bs, bt = self.blank(mandatory=True)
+            s, t, c, is_open, ew = self.struct_like(eof, last)
+            return "%s %s %s" % (kind, bs, s), kind + bt + t, "(%s %s)" % (kind, c), is_open, ew, None
+        s, t, c, is_open, ew = self.service(eof, last)
+        return "service " + s, t, c, is_open, ew, None
+
+    def file(self):
+        r = self.r
+        n = r.choice([0, 1, 1, 2, 3, 4, 6])
+        if n == 0:
+            return "b0 m0", "", "(file -)"
+        b0s, b0t = self.blank()
+        sers, text, cs = [], "", []
+        pkg = "-"
+        for i in range(n):
+            last = i == n - 1
+            s, t, c, is_open, ew, ns = self.item(last)
+            if is_open:
+                bs, bt = "b0", ""
+            else:
+                bs, bt = self.blank(eof=last)
+                # an item that ends with a token and is at the end of input was generated with eof=last for its own
+                # slots; that is sound only if nothing follows it -- if a file-level blank follows, the item's slots
+                # must be ordinary blanks.  Items that are not open have no trailing blank slot of their own, so the
+                # flag was not used by them.
+            sers.append("%s %s" % (s, bs))
+            text += t + bt
+            cs.append(c)
+            if ns is not None and pkg == "-":
+                pkg = ns[1]
+        return "%s m%d%s" % (b0s, n, "".join(" " + s for s in sers)), b0t + text, "(file %s%s)" % (pkg, "".join(" " + c for c in cs))
+
+
+def gen_cst_file(rng):
+    """(serialized CST of a whole document, text printed by Python, canonical tree of the erased document)"""
+    return CstGen(rng).file()
